@@ -101,7 +101,11 @@ def shape(e, roles=None, depth=20):
             return "arg%d" % e.local
         return "var:%s" % short_ty(e.ty)
     if isinstance(e, Upvar):
-        return "upvar:%s" % e.name
+        cap = e.captured()
+        if cap is not None:
+            # the value captured where the closure is created, in the creator's terms (name-free)
+            return "^" + shape(cap, None if isinstance(roles, _Uniq) else {}, depth - 1)
+        return "upvar#%d" % e.idx
     if isinstance(e, Const):
         if e.fn:
             return "fn:%s" % nice(e.fn)
